@@ -21,7 +21,10 @@ def run(tier, seed):
     r = vlib.Result(PROP, tier, seed)
     r.assumptions.append("sequentially consistent interleavings of the hooked accesses")
     known = {f["key"] for f in r.findings if f.get("status") == "known"}
-    found = sp.model_check(r, work, tier, ["exit_race", "late_register"])
+    found = sp.model_check(r, work, tier, ["exit_race", "late_register", "stop_skips_main"])
+    if not found.get("stop_skips_main"):
+        raise vlib.ToolError("Safepoint.tla: the mutant stop_skips_main (a stopper that does not ask the engine thread to stop) "
+                             "no longer violates C15 - the invariant has become insensitive")
     vlib.build_harness  # (built by ./check)
 
     # directed reproduction of each deviation on the real VM, validated by TLC
